@@ -107,41 +107,71 @@ pub open spec fn skip_spec(f: Seq<Seq<u8>>, n: nat) -> Option<Seq<Seq<u8>>>
 }
 
 //@@ props C12
-/// what skip_spec means without reference to the fragments: exactly n bytes are gone, none is looked at, and it is defined iff n bytes exist
-proof fn lemma_skip_spec_flat(f: Seq<Seq<u8>>, n: nat)
+/// skip_spec is defined iff n bytes are left; afterwards n bytes fewer are left
+proof fn lemma_skip_spec_total(f: Seq<Seq<u8>>, n: nat)
     requires f.len() >= 1,
     ensures
         skip_spec(f, n) is Some <==> n <= total(f),
-        skip_spec(f, n) is Some ==> flat(skip_spec(f, n)->Some_0) == flat(f).skip(n as int) && total(skip_spec(f, n)->Some_0) == total(f) - n
-            && skip_spec(f, n)->Some_0.len() >= 1,
+        skip_spec(f, n) is Some ==> total(skip_spec(f, n)->Some_0) == total(f) - n && skip_spec(f, n)->Some_0.len() >= 1,
+    decreases f.len(), n
+{
+    lemma_total_unfold(f);
+    if n == 0 {
+    } else if f[0].len() == 0 {
+        if f.len() > 1 { lemma_skip_spec_total(next_frag(f), n); }
+    } else if n <= f[0].len() {
+        let g = adv(f, n as int);
+        assert(g.drop_first() =~= f.drop_first());
+        lemma_total_unfold(g);
+    } else {
+        let g = adv(f, f[0].len() as int);
+        assert(g.drop_first() =~= f.drop_first());
+        assert(g[0].len() == 0);
+        lemma_total_unfold(g);
+        lemma_skip_spec_total(g, (n - f[0].len()) as nat);
+    }
+}
+proof fn lemma_flat_unfold(f: Seq<Seq<u8>>)
+    requires f.len() >= 1,
+    ensures flat(f) == f[0] + flat(f.drop_first()),
+{
+}
+/// what skip_spec means without reference to the fragments: exactly the next n bytes are gone (none is looked at)
+proof fn lemma_skip_spec_flat(f: Seq<Seq<u8>>, n: nat)
+    requires f.len() >= 1,
+    ensures
+        skip_spec(f, n) is Some ==> flat(skip_spec(f, n)->Some_0) == flat(f).skip(n as int),
         flat(f).len() == total(f),
     decreases f.len(), n
 {
     lemma_flat_len(f);
+    lemma_flat_unfold(f);
+    lemma_skip_spec_total(f, n);
     if n == 0 {
         assert(flat(f).skip(0) =~= flat(f));
     } else if f[0].len() == 0 {
         if f.len() > 1 {
             lemma_skip_spec_flat(next_frag(f), n);
-            assert(flat(f) =~= flat(f.drop_first()));
-        } else {
-            assert(total(f.drop_first()) == 0);
+            assert(f[0] + flat(f.drop_first()) =~= flat(f.drop_first()));
         }
     } else if n <= f[0].len() {
         let g = adv(f, n as int);
         assert(g.drop_first() =~= f.drop_first());
-        lemma_flat_len(f.drop_first());
-        assert(flat(g) =~= flat(f).skip(n as int));
+        lemma_flat_unfold(g);
+        assert(g[0] + flat(f.drop_first()) =~= (f[0] + flat(f.drop_first())).skip(n as int));
     } else {
-        let g = adv(f, f[0].len() as int);
+        let k = f[0].len() as int;
+        let g = adv(f, k);
         assert(g.drop_first() =~= f.drop_first());
-        assert(g[0].len() == 0);
-        lemma_skip_spec_flat(g, (n - f[0].len()) as nat);
-        assert(flat(g) =~= flat(f).skip(f[0].len() as int));
-        assert(total(g) == total(f) - f[0].len());
+        lemma_flat_unfold(g);
+        assert(g[0] =~= Seq::<u8>::empty());
+        assert(flat(g) =~= flat(f.drop_first()));
+        assert(flat(g) =~= (f[0] + flat(f.drop_first())).skip(k));
+        lemma_skip_spec_flat(g, (n - k) as nat);
+        lemma_skip_spec_total(g, (n - k) as nat);
         lemma_flat_len(g);
         if skip_spec(f, n) is Some {
-            assert(flat(g).skip(n - f[0].len()) =~= flat(f).skip(n as int));
+            assert(flat(f).skip(k).skip(n - k) =~= flat(f).skip(n as int));
         }
     }
 }
@@ -347,7 +377,7 @@ spec fn same_record(a: Record, b: Record) -> bool { a.typ == b.typ && (a.cont is
 //@@ body
         let ghost r0 = *self;
         let ghost n0 = len;
-        proof { lemma_skip_spec_flat(frags(r0), n0 as nat); }
+        proof { lemma_skip_spec_total(frags(r0), n0 as nat); }
 //@@ loop 0
             invariant
                 r0 == *old(self),
@@ -440,6 +470,8 @@ spec fn same_record(a: Record, b: Record) -> bool { a.typ == b.typ && (a.cont is
 //@@ before /\} else \{/
                 proof {
                     let f2 = frags(*r);
+                    //# C12.dbcs_continue_flag_byte
+                    // the continuation's first byte is the flag byte: exactly one byte is consumed before the characters resume
                     assert(f2 =~= adv(next_frag(f1), 1));
                     assert(high_byte == (f1[1][0] & 1 != 0));
                     match dbcs_segs(f2, len as nat, high_byte) {
@@ -564,11 +596,18 @@ proof fn lemma_neg_i32_as_usize(x: i32)
     let ghost f2 = frags(*r);
     proof {
         if str_hdr(d) is Some {
+            //# C12.sst_item_header_consumed
+            // exactly the header (3 bytes + cRun if fRichSt + cbExtRst if fExtSt) has been consumed
             assert(r.data@ =~= d.subrange(h.hlen, d.len() as int));
             lemma_frags_adv(r1, r2, h.hlen);
+            //# C12.sst_item_header_fields
+            // cch, fHighByte and cRun are the header's fields (cRun only under fRichSt = bit 3)
             assert(cch == h.cch && high_byte == h.hb && c_run == h.crun);
-            if h.cbext >= 0 { assert(cb_ext_rst == h.cbext); }
-            else { lemma_neg_i32_as_usize(h.cbext as i32); assert(cb_ext_rst >= 0xffff_ffff_8000_0000usize); }
+            //# C12.sst_item_header_cbextrst
+            // cbExtRst is the header's field (only under fExtSt = bit 2); a negative value becomes a count no record can hold
+            assert(if h.cbext >= 0 { cb_ext_rst == h.cbext } else { cb_ext_rst >= 0xffff_ffff_8000_0000usize }) by {
+                if h.cbext < 0 { lemma_neg_i32_as_usize(h.cbext as i32); }
+            }
             assert(f2.drop_first() =~= f1.drop_first());
             lemma_total_unfold(f2);
             assert(total(f2) <= total(f1));
@@ -577,10 +616,10 @@ proof fn lemma_neg_i32_as_usize(x: i32)
     }
 //@@ before /r\.skip\(c_run/
     let ghost f3 = frags(*r);
-    proof { if str_hdr(d) is Some { lemma_skip_spec_flat(f3, (4 * h.crun) as nat); } }
+    proof { if str_hdr(d) is Some { lemma_skip_spec_total(f3, (4 * h.crun) as nat); } }
 //@@ before /r\.skip\(cb_ext_rst/
     let ghost f4 = frags(*r);
-    proof { if str_hdr(d) is Some { lemma_skip_spec_flat(f4, cb_ext_rst as nat); } }
+    proof { if str_hdr(d) is Some { lemma_skip_spec_total(f4, cb_ext_rst as nat); } }
 //@@ end
 
 /// the texts of `n` consecutive strings starting at cursor `f`, and the cursor after them
@@ -653,6 +692,9 @@ use super::*;
     let ghost cnt = sst_count(r0.data@);
     let ghost f8 = frags(*r);
     proof {
+        //# C12.sst_header_8_bytes
+        // the strings start right after cstTotal and cstUnique
+        assert(r.data@ =~= r0.data@.subrange(8, r0.data@.len() as int));
         lemma_frags_adv(r0, *r, 8);
         assert(cnt >= 0 ==> len == cnt);
         assert(texts(sst@) =~= Seq::<Seq<char>>::empty());
@@ -849,6 +891,279 @@ pub uninterp spec fn fmt_of(s: Seq<char>) -> CellFormat;
 //@@ end
 
 } // mod m_strings
+
+// =====================================================================================================
+// C12 proper: the text of a string does not depend on how its character data is split into fragments and packed
+// =====================================================================================================
+// TRUSTED: A-enc. the workbook's code page is UTF-16LE (code page 1200, which [MS-XLS] 2.4.52 prescribes for BIFF8)
+pub uninterp spec fn enc_is_utf16le(e: XlsEncoding) -> bool;
+/// the cut a|b of a 16-bit little-endian text falls between a high and a low surrogate
+pub open spec fn straddle(a: Seq<u8>, b: Seq<u8>) -> bool {
+    a.len() >= 2 && b.len() >= 2 && 0xD8 <= a[a.len() - 1] <= 0xDB && 0xDC <= b[1] <= 0xDF
+}
+/// the bytes begin with a byte order mark pattern (UTF-16LE FF FE, UTF-16BE FE FF, UTF-8 EF BB BF), which encoding_rs `decode` sniffs
+pub open spec fn has_bom(b: Seq<u8>) -> bool {
+    (b.len() >= 2 && ((b[0] == 0xFF && b[1] == 0xFE) || (b[0] == 0xFE && b[1] == 0xFF)))
+    || (b.len() >= 3 && b[0] == 0xEF && b[1] == 0xBB && b[2] == 0xBF)
+}
+// TRUSTED: A-enc, the single assumed property of the decoder: UTF-16LE decoding (with replacement of unpaired surrogates) of a
+// concatenation is the concatenation of the decodings when the cut is at a code unit boundary, not inside a surrogate pair, and no
+// piece starts with a BOM pattern. Both exclusions are real (native demonstrations findings/xlsstr_9, xlsstr_10).
+#[verifier::external_body]
+pub proof fn axiom_decode_utf16_concat(e: XlsEncoding, a: Seq<u8>, b: Seq<u8>)
+    requires enc_is_utf16le(e), a.len() % 2 == 0, !straddle(a, b), !has_bom(a), !has_bom(b), !has_bom(a + b),
+    ensures decode(e, a + b) == decode(e, a) + decode(e, b),
+{}
+proof fn witness_axiom_decode_utf16_concat(e: XlsEncoding)
+    requires enc_is_utf16le(e),
+    ensures decode(e, seq![0x41u8, 0u8] + seq![0x42u8, 0u8]) == decode(e, seq![0x41u8, 0u8]) + decode(e, seq![0x42u8, 0u8]),
+{
+    let a = seq![0x41u8, 0u8]; let b = seq![0x42u8, 0u8];
+    assert((a + b)[0] == 0x41u8 && (a + b)[1] == 0u8);
+    axiom_decode_utf16_concat(e, a, b);
+}
+
+//@@ props C12,C19
+/// a run in 16-bit storage holds whole characters
+pub open spec fn seg_ok(g: Seg) -> bool { g.wide ==> g.bytes.len() % 2 == 0 }
+pub open spec fn segs_ok(ss: Seq<Seg>) -> bool { forall|i: int| 0 <= i < ss.len() ==> seg_ok(#[trigger] ss[i]) }
+/// the character sequence of a run list: all runs widened to 16-bit little-endian and concatenated
+pub open spec fn segs_wide(ss: Seq<Seg>) -> Seq<u8>
+    decreases ss.len()
+{
+    if ss.len() == 0 { Seq::<u8>::empty() } else { seg_wide_bytes(ss[0]) + segs_wide(ss.drop_first()) }
+}
+/// EXPLICIT HYPOTHESIS of layout independence: no fragment boundary inside a surrogate pair, no BOM pattern at the start of a run or
+/// of the text remaining at a run boundary
+pub open spec fn layout_safe(ss: Seq<Seg>) -> bool
+    decreases ss.len()
+{
+    ss.len() == 0 || {
+        let a = seg_wide_bytes(ss[0]);
+        let b = segs_wide(ss.drop_first());
+        !straddle(a, b) && !has_bom(a) && !has_bom(b) && !has_bom(a + b) && layout_safe(ss.drop_first())
+    }
+}
+proof fn lemma_zext_len(b: Seq<u8>)
+    ensures zext(b).len() == 2 * b.len(), zext(b).len() % 2 == 0,
+{
+}
+proof fn lemma_seg_wide_even(g: Seg)
+    requires seg_ok(g),
+    ensures seg_wide_bytes(g).len() % 2 == 0,
+{
+    if !g.wide { lemma_zext_len(g.bytes); }
+}
+/// however the runs are cut and packed, their text is the decoding of the whole character sequence in one piece
+proof fn lemma_segs_text_canonical(e: XlsEncoding, ss: Seq<Seg>)
+    requires enc_is_utf16le(e), segs_ok(ss), layout_safe(ss),
+    ensures segs_text(e, ss) == decode(e, segs_wide(ss)),
+    decreases ss.len()
+{
+    if ss.len() == 0 {
+        // decode of the empty text is empty: from the axiom with a = b = empty
+        let z = Seq::<u8>::empty();
+        assert(z + z =~= z);
+        axiom_decode_utf16_concat(e, z, z);
+        assert(decode(e, z).len() == decode(e, z).len() + decode(e, z).len());
+        assert(decode(e, z) =~= Seq::<char>::empty());
+    } else {
+        let a = seg_wide_bytes(ss[0]);
+        let rest = ss.drop_first();
+        assert(seg_ok(ss[0]));
+        lemma_seg_wide_even(ss[0]);
+        assert forall|i: int| 0 <= i < rest.len() implies seg_ok(#[trigger] rest[i]) by { assert(rest[i] == ss[i + 1]); }
+        lemma_segs_text_canonical(e, rest);
+        axiom_decode_utf16_concat(e, a, segs_wide(rest));
+    }
+}
+/// the runs dbcs_segs cuts hold whole characters
+proof fn lemma_dbcs_segs_ok(f: Seq<Seq<u8>>, cch: nat, hb: bool)
+    ensures dbcs_segs(f, cch, hb) is Some ==> segs_ok(dbcs_segs(f, cch, hb)->Some_0.0),
+    decreases f.len(), cch
+{
+    if cch > 0 && f.len() > 0 {
+        let w: int = if hb { 2 } else { 1 };
+        let l = imin(f[0].len() as int / w, cch as int);
+        let seg = Seg { wide: hb, bytes: f[0].subrange(0, l * w) };
+        assert(seg_ok(seg));
+        if l == cch {
+        } else if f.len() > 1 && f[1].len() > 0 {
+            let f2 = adv(next_frag(f), 1);
+            lemma_dbcs_segs_ok(f2, (cch - l) as nat, f[1][0] & 1 != 0);
+            match dbcs_segs(f2, (cch - l) as nat, f[1][0] & 1 != 0) {
+                Some((ss, g)) => {
+                    let all = seq![seg] + ss;
+                    assert forall|i: int| 0 <= i < all.len() implies seg_ok(#[trigger] all[i]) by { if i > 0 { assert(all[i] == ss[i - 1]); } }
+                }
+                None => {}
+            }
+        }
+    }
+}
+
+//# C12.layout_independent
+/// C12: two layouts (f1 starting in storage form hb1, f2 in hb2) of the same cch characters -- the same 16-bit character sequence
+/// `segs_wide`, cut into fragments at different places (between characters, each continuation with its own flag byte) and packed
+/// 8-bit or 16-bit per fragment -- read back as the same text, namely the text of the character sequence decoded in one piece.
+proof fn lemma_sst_layout_independent(e: XlsEncoding, f1: Seq<Seq<u8>>, hb1: bool, f2: Seq<Seq<u8>>, hb2: bool, cch: nat)
+    requires
+        enc_is_utf16le(e),
+        dbcs_segs(f1, cch, hb1) is Some,
+        dbcs_segs(f2, cch, hb2) is Some,
+        segs_wide(dbcs_segs(f1, cch, hb1)->Some_0.0) == segs_wide(dbcs_segs(f2, cch, hb2)->Some_0.0),
+        layout_safe(dbcs_segs(f1, cch, hb1)->Some_0.0),
+        layout_safe(dbcs_segs(f2, cch, hb2)->Some_0.0),
+    ensures
+        dbcs_spec(e, f1, cch, hb1)->Some_0.0 == dbcs_spec(e, f2, cch, hb2)->Some_0.0,
+        dbcs_spec(e, f1, cch, hb1)->Some_0.0 == decode(e, segs_wide(dbcs_segs(f1, cch, hb1)->Some_0.0)),
+{
+    lemma_dbcs_segs_ok(f1, cch, hb1);
+    lemma_dbcs_segs_ok(f2, cch, hb2);
+    lemma_segs_text_canonical(e, dbcs_segs(f1, cch, hb1)->Some_0.0);
+    lemma_segs_text_canonical(e, dbcs_segs(f2, cch, hb2)->Some_0.0);
+}
+
+/// 8-bit compressed runs can never trigger the two exclusions: a zero high byte is neither a surrogate nor part of a BOM pattern
+proof fn lemma_compressed_is_safe(a: Seq<u8>, b: Seq<u8>)
+    ensures
+        !has_bom(zext(a)),
+        !straddle(zext(a), b),
+        !straddle(b, zext(a)),
+        a.len() > 0 ==> !has_bom(zext(a) + b),
+{
+    if a.len() > 0 {
+        assert(zext(a)[1] == 0u8);
+        assert(zext(a)[zext(a).len() - 1] == 0u8);
+        assert((zext(a) + b)[1] == 0u8);
+    }
+}
+
+// ---- writer side: what a legal layout looks like, and that the reader gets its runs back
+pub open spec fn flag_byte(wide: bool) -> u8 { if wide { 1u8 } else { 0u8 } }
+/// The fragments a writer produces for the run list `ss` (at least one run) followed by `tail` (whatever comes after the character
+/// data in the last fragment: formatting runs, phonetic data, the next strings): run 0 ends the current fragment; every further run
+/// is a CONTINUE record = flag byte + the run's bytes; the tail follows the last run.
+pub open spec fn layout_frags(ss: Seq<Seg>, tail: Seq<u8>) -> Seq<Seq<u8>>
+    decreases ss.len()
+{
+    if ss.len() <= 1 { seq![(if ss.len() == 1 { ss[0].bytes } else { Seq::<u8>::empty() }) + tail] }
+    else {
+        let rest = layout_frags(ss.drop_first(), tail);
+        seq![ss[0].bytes] + rest.update(0, seq![flag_byte(ss[1].wide)] + rest[0])
+    }
+}
+proof fn lemma_layout_frags_len(ss: Seq<Seg>, tail: Seq<u8>)
+    ensures layout_frags(ss, tail).len() >= 1,
+    decreases ss.len()
+{
+    if ss.len() > 1 { lemma_layout_frags_len(ss.drop_first(), tail); }
+}
+proof fn lemma_flag_byte(w: bool)
+    ensures (flag_byte(w) & 1 != 0) == w,
+{
+    assert(1u8 & 1 != 0) by (bit_vector);
+    assert(0u8 & 1 == 0) by (bit_vector);
+}
+/// the reader cuts a legal layout into exactly the writer's runs and stops in front of the tail
+proof fn lemma_dbcs_reads_layout(ss: Seq<Seg>, tail: Seq<u8>)
+    requires ss.len() >= 1, segs_ok(ss), seg_units(ss.last()) >= 1,
+    ensures dbcs_segs(layout_frags(ss, tail), segs_units(ss) as nat, ss[0].wide) == Some((ss, seq![tail])),
+    decreases ss.len()
+{
+    let f = layout_frags(ss, tail);
+    let hb = ss[0].wide;
+    let w: int = if hb { 2 } else { 1 };
+    let u0 = seg_units(ss[0]);
+    assert(seg_ok(ss[0]));
+    assert(ss[0].bytes.len() == u0 * w);
+    lemma_segs_units_nonneg(ss.drop_first());
+    if ss.len() == 1 {
+        assert(ss.drop_first() =~= Seq::<Seg>::empty());
+        assert(segs_units(ss) == u0);
+        assert(f[0] == ss[0].bytes + tail);
+        assert(f[0].len() as int / w >= u0) by (nonlinear_arith) requires f[0].len() >= u0 * w, w == 1 || w == 2, u0 >= 0;
+        let l = imin(f[0].len() as int / w, u0);
+        assert(l == u0);
+        assert(f[0].subrange(0, l * w) =~= ss[0].bytes);
+        assert(adv(f, l * w) =~= seq![tail]);
+        assert(seq![Seg { wide: hb, bytes: ss[0].bytes }] =~= ss);
+    } else {
+        let rest_ss = ss.drop_first();
+        let rest = layout_frags(rest_ss, tail);
+        lemma_layout_frags_len(rest_ss, tail);
+        assert(rest_ss.last() == ss.last());
+        assert forall|i: int| 0 <= i < rest_ss.len() implies seg_ok(#[trigger] rest_ss[i]) by { assert(rest_ss[i] == ss[i + 1]); }
+        lemma_dbcs_reads_layout(rest_ss, tail);
+        lemma_segs_units_last(rest_ss);
+        let cch = segs_units(ss);
+        assert(cch == u0 + segs_units(rest_ss));
+        assert(segs_units(rest_ss) >= 1);
+        assert(f[0] == ss[0].bytes);
+        assert(f[0].len() as int / w == u0) by (nonlinear_arith) requires f[0].len() == u0 * w, w == 1 || w == 2, u0 >= 0;
+        let l = imin(f[0].len() as int / w, cch);
+        assert(l == u0 && l != cch);
+        assert(f[0].subrange(0, l * w) =~= ss[0].bytes);
+        assert(f[1] == seq![flag_byte(ss[1].wide)] + rest[0]);
+        assert(f[1][0] == flag_byte(ss[1].wide));
+        lemma_flag_byte(ss[1].wide);
+        assert(rest_ss[0] == ss[1]);
+        assert(adv(next_frag(f), 1) =~= rest);
+        assert(seq![Seg { wide: hb, bytes: ss[0].bytes }] + rest_ss =~= ss);
+    }
+}
+proof fn lemma_segs_units_nonneg(ss: Seq<Seg>)
+    ensures segs_units(ss) >= 0,
+    decreases ss.len()
+{
+    if ss.len() > 0 { lemma_segs_units_nonneg(ss.drop_first()); }
+}
+proof fn lemma_segs_units_last(ss: Seq<Seg>)
+    requires ss.len() >= 1,
+    ensures segs_units(ss) >= seg_units(ss.last()),
+    decreases ss.len()
+{
+    lemma_segs_units_nonneg(ss.drop_first());
+    if ss.len() > 1 { assert(ss.drop_first().last() == ss.last()); lemma_segs_units_last(ss.drop_first()); }
+}
+/// the number of characters is determined by the character sequence
+proof fn lemma_segs_wide_len(ss: Seq<Seg>)
+    requires segs_ok(ss),
+    ensures segs_wide(ss).len() == 2 * segs_units(ss),
+    decreases ss.len()
+{
+    if ss.len() > 0 {
+        let rest = ss.drop_first();
+        assert forall|i: int| 0 <= i < rest.len() implies seg_ok(#[trigger] rest[i]) by { assert(rest[i] == ss[i + 1]); }
+        lemma_segs_wide_len(rest);
+        assert(seg_ok(ss[0]));
+        if !ss[0].wide { lemma_zext_len(ss[0].bytes); }
+    }
+}
+
+//# C12.layouts_read_back_identically
+/// C12, writer to reader: the same character sequence laid out in two legal ways (different cuts, different packing per fragment,
+/// different data after the string) is read back as the same text, and each reader stops exactly in front of its tail
+/// (so whatever follows -- formatting runs, phonetic block, later strings -- is untouched).
+proof fn lemma_layouts_read_back_identically(e: XlsEncoding, s1: Seq<Seg>, t1: Seq<u8>, s2: Seq<Seg>, t2: Seq<u8>)
+    requires
+        enc_is_utf16le(e),
+        s1.len() >= 1, segs_ok(s1), seg_units(s1.last()) >= 1,
+        s2.len() >= 1, segs_ok(s2), seg_units(s2.last()) >= 1,
+        segs_wide(s1) == segs_wide(s2),
+        layout_safe(s1), layout_safe(s2),
+    ensures
+        segs_units(s1) == segs_units(s2),
+        dbcs_spec(e, layout_frags(s1, t1), segs_units(s1) as nat, s1[0].wide) == Some((decode(e, segs_wide(s1)), seq![t1])),
+        dbcs_spec(e, layout_frags(s2, t2), segs_units(s1) as nat, s2[0].wide) == Some((decode(e, segs_wide(s1)), seq![t2])),
+{
+    lemma_segs_wide_len(s1);
+    lemma_segs_wide_len(s2);
+    lemma_dbcs_reads_layout(s1, t1);
+    lemma_dbcs_reads_layout(s2, t2);
+    lemma_segs_text_canonical(e, s1);
+    lemma_segs_text_canonical(e, s2);
+}
 
 } // verus!
 fn main() {}
